@@ -1367,6 +1367,9 @@ class NLDFAuxiliaryPlan(ABC):
         self.nspin = nspin
         if rhocut < 0 or expcut < 0:
             raise ValueError("rhocut and expcut must be nonnegative")
+        if alpha_formula == "zexp" and not expcut > 0:
+            # expcut is the first interpolating exponent of the zexp grid
+            raise ValueError("expcut must be positive for alpha_formula='zexp'")
         self.rhocut = rhocut / nspin
         self._rhocut_input = rhocut
         self.expcut = expcut
